@@ -1,5 +1,6 @@
 import PegVerif.Proofs.FrontLemmas
 import PegVerif.Proofs.FrontHex
+import PegVerif.Proofs.FrontFold
 import PegVerif.Props.C10Escapes
 /-
   C10 — the front end (reader of `.peg` texts).
@@ -15,8 +16,9 @@ import PegVerif.Props.C10Escapes
        sides — no `native_decide`): the whole finite escape table, and one representative text per
        documented construct.  These are TESTS with a kernel certificate, not universally
        quantified round-trip theorems.
-   (U) universal theorems about the builder (all stacks, all digit strings) and about the model
-       front end (soundness w.r.t. the relational PEG semantics, fuel irrelevance).
+   (U) universal theorems about the builder (all stacks, all digit strings, case folding of every
+       rune) and about the model front end (soundness w.r.t. the relational PEG semantics, fuel
+       irrelevance); `DoubleChar` on every raw character.
    (S) structural facts about the regenerated rules (precedence chain), by inspection.
 
   NOT proved: `frontModel (render a sp) = denote a` for all abstract grammars `a` and spellings
@@ -88,6 +90,29 @@ theorem C10_non_escapes : ∀ sp ∈ nonEscapes, frontChar sp = none := by
   rw [frontChar_eq]
   exact eq_of_beq (List.all_eq_true.mp nonEscapes_checked sp hsp)
 
+/-- C10, escapes in a CASE-INSENSITIVE position (one character of a double-quoted literal or of a
+    `[[…]]` class, rule `DoubleChar`): EVERY spelling of the escape table that denotes a code point
+    `c` becomes `foldNode c` — the choice lower / upper when `c` is a letter (`\101`, `\0x61`,
+    `\0X3B1`, …), the plain character when it has no case; a spelling that is reported is reported
+    here too (no node).  Evaluated by the kernel on rule `DoubleChar` of the regenerated grammar. -/
+theorem C10_caseFold_escapes : ∀ row ∈ escTable,
+    (∀ c, row.2 = .cp c → frontFold row.1 = some (foldNode c)) ∧
+    (∀ msgs, row.2 = .err msgs → frontFold row.1 = none) := by
+  intro row hrow
+  rw [frontFold_eq]
+  have h := List.all_eq_true.mp escTable_fold_checked row hrow
+  refine ⟨fun c hc => ?_, fun msgs hm => ?_⟩
+  · rw [hc] at h
+    simp only at h
+    split at h
+    · next n hn => rw [hn, Node.eq_of_beq _ _ h]
+    · cases h
+  · rw [hm] at h
+    simp only at h
+    cases hf : frontFoldCore pegLinked.G pegActs pegTable row.1 with
+    | none => rfl
+    | some n => rw [hf] at h; cases h
+
 /-! ## (E) one representative text per documented construct -/
 
 /-- Single-quoted literals are case-sensitive: one Character per rune, exactly as written. -/
@@ -96,10 +121,16 @@ theorem C10_literal_case :
       some [seqN [chrN 'a', chrN 'B', chrN 'c']] := by
   rw [front_eq]; kernel_rfl
 
-/-- Double-quoted literals are case-insensitive: each ASCII letter becomes lower/upper. -/
+/-- Double-quoted literals are case-insensitive: EVERY character that has two cases becomes the
+    choice lower/upper — a raw ASCII letter, a letter outside ASCII (`é`, `Ω`), a letter written as
+    an escape (`\0x61`, `\102`); a title case letter (`ǅ`) keeps itself as a third form; a character
+    without case (digit, punctuation, `汉`, `ß`, the escape `\n`) stays the plain character. -/
 theorem C10_dquote_ci :
-    front "package p\ntype T Peg {}\nr <- \"aB1\"\n" =
-      some [seqN [altN [chrN 'a', chrN 'A'], altN [chrN 'b', chrN 'B'], chrN '1']] := by
+    front "package p\ntype T Peg {}\nr <- \"aB1\"\ns <- \"é\\0x61\\102Ω\"\nt <- \"ǅ-汉ß\\n\"\n" =
+      some [seqN [altN [chrN 'a', chrN 'A'], altN [chrN 'b', chrN 'B'], chrN '1'],
+            seqN [altN [chrN 'é', chrN 'É'], altN [chrN 'a', chrN 'A'], altN [chrN 'b', chrN 'B'],
+                  altN [chrN 'ω', chrN 'Ω']],
+            seqN [altN [chrN 'ǆ', chrN 'Ǆ', chrN 'ǅ'], chrN '-', chrN '汉', chrN 'ß', chrN '\n']] := by
   rw [front_eq]; kernel_rfl
 
 /-- Classes: `[a-c]` is a range, `[ab]` an alternation of characters, mixed classes alternate
@@ -116,11 +147,15 @@ theorem C10_negclass :
       some [seqN [peekNotN (altN [chrN 'a', chrN 'b']), dotN], seqN [peekNotN (rangeN 'a' 'z'), dotN]] := by
   rw [front_eq]; kernel_rfl
 
-/-- `[[…]]` classes are case-insensitive (letters and ranges in both cases), `[[^…]]` negates. -/
+/-- `[[…]]` classes are case-insensitive (letters and ranges in both cases), `[[^…]]` negates; the
+    letters may be outside ASCII or written as escapes, as items (`[[é\141]]`) and as range bounds
+    (`[[à-þ]]`, `[[\0x61-\172]]`). -/
 theorem C10_ci_class :
-    front "package p\ntype T Peg {}\nr <- [[a-c]]\ns <- [[x1]]\nt <- [[^A-Z]]\n" =
+    front "package p\ntype T Peg {}\nr <- [[a-c]]\ns <- [[x1]]\nt <- [[^A-Z]]\nu <- [[é\\141]]\nv <- [[à-þ]]\nw <- [[\\0x61-\\172]]\n" =
       some [altN [rangeN 'a' 'c', rangeN 'A' 'C'], altN [chrN 'x', chrN 'X', chrN '1'],
-            seqN [peekNotN (altN [rangeN 'a' 'z', rangeN 'A' 'Z']), dotN]] := by
+            seqN [peekNotN (altN [rangeN 'a' 'z', rangeN 'A' 'Z']), dotN],
+            altN [chrN 'é', chrN 'É', altN [chrN 'a', chrN 'A']],
+            altN [rangeN 'à' 'þ', rangeN 'À' 'Þ'], altN [rangeN 'a' 'z', rangeN 'A' 'Z']] := by
   rw [front_eq]; kernel_rfl
 
 /-- Both arrow spellings (`<-` and U+2190) give the same rule. -/
@@ -268,12 +303,66 @@ theorem C10_builder_addList_flatten (ty : NType) (a b : Node) (rest : List Node)
       .ok ⟨(if b.t = ty then b.pushBack a else Node.mk ty [] 0 [b, a]) :: rest, n, es⟩ :=
   builder_addList_flatten ty a b rest n es
 
-/-- `PopFront` never hits the empty deque on a balanced call sequence, and an unbalanced one never
-    completes. -/
+/-- `PopFront` never hits the empty deque on a balanced call sequence: the sequence COMPLETES (so it
+    neither panics nor leaves the modelled fragment — every builder call is modelled on every string,
+    `strings.ToLower` / `ToUpper` included); and an unbalanced one PANICS with "tree is empty". -/
 theorem C10_builder_never_panics_on_balanced (ops : List Op) (st : BState) :
-    (balanced ops st.items.length = true → ∀ m, applyOps ops st ≠ .panic m) ∧
-    (balanced ops st.items.length = false → ∀ st', applyOps ops st ≠ .ok st') :=
-  ⟨builder_never_panics_on_balanced ops st, builder_unbalanced_fails ops st⟩
+    (balanced ops st.items.length = true → ∃ st', applyOps ops st = .ok st') ∧
+    (balanced ops st.items.length = false → applyOps ops st = .panic "tree is empty") :=
+  ⟨builder_balanced_completes ops st, builder_unbalanced_panics ops st⟩
+
+/-- `AddCaseFold()` for ANY node `c` on top of ANY deque: `c` stays when `strings.ToLower` and
+    `strings.ToUpper` of its string agree; otherwise it becomes the choice of the two strings, followed
+    by `c` itself when its string is neither of them. -/
+theorem C10_builder_caseFold (c : Node) (rest : List Node) (n : Nat) (es : List (List Sym)) :
+    (Op.addCaseFold).apply ⟨c :: rest, n, es⟩ =
+      .ok ⟨(if toLowerS c.s = toUpperS c.s then c
+            else if c.s ≠ toLowerS c.s ∧ c.s ≠ toUpperS c.s then
+              Node.mk .alternate [] 0
+                [.leaf .character (toLowerS c.s), .leaf .character (toUpperS c.s), c]
+            else Node.mk .alternate [] 0
+                [.leaf .character (toLowerS c.s), .leaf .character (toUpperS c.s)]) :: rest, n, es⟩ :=
+  builder_addCaseFold c rest n es
+
+/-- … in particular after `Char` has pushed ONE character `r`, for EVERY rune `r` (raw or the value of
+    an escape): `foldNode r` = the plain character when `r` has no case (`unicode.ToLower r =
+    unicode.ToUpper r`), else `lower / upper`, and `lower / upper / r` for a title case `r`. -/
+theorem C10_caseFold_char (r : Sym) (rest : List Node) (n : Nat) (es : List (List Sym)) :
+    (Op.addCaseFold).apply ⟨cpN r :: rest, n, es⟩ = .ok ⟨foldNode r :: rest, n, es⟩ :=
+  builder_addCaseFold_char r rest n es
+
+/-- ASCII: a letter becomes lower/upper — exactly the tree `<[a-zA-Z]> { p.AddDoubleCharacter(text) }`
+    used to build, so grammars written with raw ASCII letters generate the parsers they did — and
+    every other ASCII character (digit, punctuation, control) stays ONE plain character. -/
+theorem C10_caseFold_ascii (c : Sym) (h : c ≤ 127) :
+    foldNode c =
+      if 97 ≤ c ∧ c ≤ 122 then altN [cpN c, cpN (c - 32)]
+      else if 65 ≤ c ∧ c ≤ 90 then altN [cpN (c + 32), cpN c]
+      else cpN c :=
+  foldNode_ascii c h
+
+/-- Case-insensitivity for EVERY raw character, at the level of the regenerated grammar (relational
+    PEG semantics, so no fuel): rule `DoubleChar` — one character of a double-quoted literal or of a
+    `[[…]]` class — consumes any character `c` other than the backslash (whatever follows), and
+    `Execute()` on the resulting tokens, with the action code of peg.peg run against the builder
+    model, ends with exactly the node `foldNode c` and no error: the plain character when `c` has no
+    case, `lower / upper` when it has one, `lower / upper / c` for a title case letter.  By
+    `Eval_det` this derivation is the only one.  (Characters written as escapes:
+    `C10_caseFold_escapes`.) -/
+theorem C10_caseFold_raw_all (c : Sym) (hc : c ≠ 92) (tl : List Sym) :
+    ∃ forest evs,
+      Eval pegLinked.G (fun _ _ => false) (c :: tl) (.name "DoubleChar") 0 (.ok 1 forest) evs ∧
+      (execute pegActs (c :: tl) (postorderL forest)).map
+          (fun e => runEvents pegTable e BState.init) = some (.ok ⟨[foldNode c], 0, []⟩) := by
+  obtain ⟨evs, he⟩ := doubleChar_raw_eval c hc tl
+  exact ⟨_, evs, he, doubleChar_raw_actions c tl⟩
+
+/-- The case table the model searches (`unicode.CaseRanges`, regenerated from the Go library) is
+    sorted with disjoint non-empty ranges, so at most one range holds a rune and the model's search
+    finds exactly the range any search of the table (Go's is a binary search) returns. -/
+theorem C10_case_table (r : Nat) (cr : CaseRange) (hc : cr ∈ goCaseRanges) (hh : cr.holds r = true) :
+    caseRangesSorted goCaseRanges = true ∧ lookupCaseRange r goCaseRanges = some cr :=
+  ⟨goCaseRanges_sorted, goCaseRanges_lookup r cr hc hh⟩
 
 /-- `AddHexaCharacter` / `AddOctalCharacter` for ALL non-empty digit strings: a hex string whose
     value is a code point pushes that character and records nothing; any other hex string (surrogate,
@@ -338,6 +427,7 @@ theorem C10_fuel_irrelevant (text : List Sym) (f1 f2 : Nat)
 
 #print axioms C10_escape_table
 #print axioms C10_non_escapes
+#print axioms C10_caseFold_escapes
 #print axioms C10_literal_case
 #print axioms C10_dquote_ci
 #print axioms C10_class
@@ -354,6 +444,11 @@ theorem C10_fuel_irrelevant (text : List Sym) (f1 f2 : Nat)
 #print axioms C10_list_rules
 #print axioms C10_builder_addList_flatten
 #print axioms C10_builder_never_panics_on_balanced
+#print axioms C10_builder_caseFold
+#print axioms C10_caseFold_char
+#print axioms C10_caseFold_ascii
+#print axioms C10_caseFold_raw_all
+#print axioms C10_case_table
 #print axioms C10_escape_hex_spec
 #print axioms C10_escape_octal_spec
 #print axioms C10_escape_hex_all
